@@ -1003,6 +1003,9 @@ impl Checker<'_> {
     pub fn check_prune(&mut self, dir: &Path, records: &[Event], live_jobs: &[u32], live_workers: &[u32], continuation: &[Event]) {
         self.check_prune_one(dir, records, live_jobs, live_workers, continuation);
         for variant in merged_batch_variants(records) {
+            if std::env::var("HQMC_DEBUG").is_ok() {
+                eprintln!("merged variant: {:?} live {:?}", variant.iter().map(|e| payload_tag(&e.payload)).collect::<Vec<_>>(), live_jobs);
+            }
             let n0 = self.found.len();
             self.check_prune_one(dir, &variant, live_jobs, live_workers, continuation);
             for f in self.found[n0..].iter_mut() {
@@ -1301,10 +1304,25 @@ fn merged_batch_variants(records: &[Event]) -> Vec<Vec<Event>> {
             if jobs_i.iter().any(|x| jobs_j.contains(x)) {
                 continue;
             }
-            let clean = records[i + 1..j].iter().all(|r| match record_jobs(&r.payload) {
-                None => false,
-                Some(js) => !js.iter().any(|x| jobs_j.contains(x)),
-            });
+            // records between the two that are about the later record's jobs: only the
+            // "cancel requested" markers of those jobs are tolerated; they move in front of the
+            // merged record (as a server that batches across jobs would write them)
+            let mut moved: Vec<usize> = Vec::new();
+            let mut clean = true;
+            for (k, r) in records.iter().enumerate().take(j).skip(i + 1) {
+                match record_jobs(&r.payload) {
+                    None => clean = false,
+                    Some(js) => {
+                        if js.iter().any(|x| jobs_j.contains(x)) {
+                            if matches!(r.payload, EventPayload::JobCancel { .. }) {
+                                moved.push(k);
+                            } else {
+                                clean = false;
+                            }
+                        }
+                    }
+                }
+            }
             if !clean {
                 continue;
             }
@@ -1319,10 +1337,13 @@ fn merged_batch_variants(records: &[Event]) -> Vec<Vec<Event>> {
                 }
                 let mut v: Vec<Event> = Vec::with_capacity(records.len() - 1);
                 for (k, r) in records.iter().enumerate() {
-                    if k == j {
+                    if k == j || moved.contains(&k) {
                         continue;
                     }
                     if k == i {
+                        for m in &moved {
+                            v.push(records[*m].clone());
+                        }
                         v.push(Event {
                             time: r.time,
                             payload: if kind_i {
